@@ -1717,8 +1717,8 @@ def check_parse_flow(ctx: Ctx, mt: pf.Module, G: P.Grammar) -> None:
             problem: Optional[str] = None
             unknown: Optional[str] = None
             if kv == 'lossy':
-                problem = (f'the memo {cid.split("::")[-1]} is read under the key `{_tsrc(K)}`: {kwhy}. Two type strings that differ only in that respect inside a '
-                           f'back-ticked name denote different types but share an entry: after hl.dtype of the first, hl.dtype(str(t2)) returns t1 '
+                problem = (f'the memo {cid.split("::")[-1]} is read under the key `{_tsrc(K)}`: {kwhy}. Two type strings that differ only in what the key drops (significant, e.g. '
+                           f'inside a back-ticked name) denote different types but share an entry: after hl.dtype of the first, hl.dtype(str(t2)) returns t1 '
                            f'(each of them round-trips alone, in a fresh process)')
             elif kv == 'unknown':
                 unknown = kwhy
@@ -1729,8 +1729,8 @@ def check_parse_flow(ctx: Ctx, mt: pf.Module, G: P.Grammar) -> None:
                 for k in w['K']:
                     wv, wwhy = classify_transform(k[1], G, as_key=True)
                     if wv == 'lossy' and not problem:
-                        problem = (f'`{pf.nsrc(w["node"])[:70]}` stores under the key `{_tsrc(k[1])}`: {wwhy}. Two type strings that differ only in that respect '
-                                   f'inside a back-ticked name share the entry, and the later one gets the earlier one\'s type')
+                        problem = (f'`{pf.nsrc(w["node"])[:70]}` stores under the key `{_tsrc(k[1])}`: {wwhy}. Two type strings that differ only in what the key drops '
+                                   f'share the entry, and the later one gets the earlier one\'s type')
                     elif wv == 'unknown':
                         unknown = unknown or wwhy
                     elif pf.nsrc(k[1]) != pf.nsrc(K) and wv == 'ok' and kv == 'ok' and pf.nsrc(_peel_key(k[1])) != pf.nsrc(_peel_key(K)):
@@ -1764,7 +1764,7 @@ def check_parse_flow(ctx: Ctx, mt: pf.Module, G: P.Grammar) -> None:
             if lossy is not None and not guarded:
                 meth_, node_, kwhy_ = lossy
                 ctx.bad('R7', f'{vrel}::{vcls.name}.{meth_.name}::memo inside the visitor', f'{meth_.name} keeps results between parses (`{pf.nsrc(node_)[:60]}`) under a key '
-                        f'computed from the node text: {kwhy_.replace("type_str", "node.text")}. Two texts that differ only in that respect inside a back-ticked name denote '
+                        f'computed from the node text: {kwhy_.replace("type_str", "node.text")}. Two texts that differ only in what the key drops (significant, e.g. inside a back-ticked name) denote '
                         f'different types but share the entry: the second one parsed gets the first one\'s type', pf.load(vrel).path, meth_.lineno)
             else:
                 declines.append(f'{vrel}::{vcls.name}: {why}')
